@@ -46,6 +46,9 @@ func (r *Recorder) End(proc, idx int, ret int64, res string) {
 	o.Ret, o.Res, o.Return = ret, res, r.Now()
 }
 
+// Retag changes the kind of a recorded operation (e.g. a timed operation that gave up becomes a no-op).
+func (r *Recorder) Retag(proc, idx int, kind string) { r.per[proc][idx].Kind = kind }
+
 // Ops returns all operations (after the processes were joined).
 func (r *Recorder) Ops() []Op {
 	var out []Op
@@ -245,6 +248,8 @@ func Model(kind ModelKind, capacity, buf int) porcupine.Model {
 					return len(st) == 0, st
 				}
 				return false, st
+			case "noop": // an operation that gave up without touching the structure (a timed Put/Take that timed out)
+				return true, st
 			case "count":
 				if kind == RelaxedBuffered || kind == BoundedFIFO {
 					return true, st // Count is checked separately (bound / quiescence)
